@@ -13,7 +13,7 @@ if [ $TESTS = 1 ]; then
   rm -f /tmp/mutant-tests.$$
 fi
 for id in "$@"; do
-  out=$(/verif/check "$id" "${TIER:-quick}" 2>&1); rc=$?
+  out=$(TCSS_OUT_DIR=/tmp/mutant-out /verif/check "$id" "${TIER:-quick}" 2>&1); rc=$?
   case $rc in
     0) echo "$id: MISSED";;
     1) echo "$id: DETECTED  $(echo "$out" | grep -m1 -A1 '^VIOLATION' | tail -1 | cut -c1-220)";;
